@@ -16,6 +16,7 @@ pub fn prop() -> Prop {
                Runs in the verif profile (debug assertions + overflow checks) and in plain release. Non-trivial = every input; distinct = distinct input strings.",
         assumptions: &["x86-64; two build profiles (verif, release)", "panic = unwind, so a panic is observable by catch_unwind; aborts are observed as shard deaths"],
         also_release: true, abort_is_violation: true, run, guard,
+        stages: || vec![st("miri", "0,1,2", 250, 4, 2400), st("asan", "", 20_000, 4, 1200)],
         level_text: "Fault enumeration at run time: a complete table of escape/literal edge cases plus hundreds of thousands (quick) to tens of millions (thorough) of hostile and mutated inputs through the real parser under a panic/abort monitor and a span-bounds oracle, in two build profiles; thorough adds Miri and ASan stages on the same inputs.",
         level_note: "Sampling outside the targeted table; 'never panics' is decided only for the inputs generated and the two profiles run.",
         technique: "panic/abort monitor + span-bounds oracle over hostile generated inputs (fuzz-style), two profiles",
